@@ -99,6 +99,191 @@ Proof.
   unfold SCH_SIZE, TSH_SIZE. replace (Nat.ltb (length S) (3 + 5 + 4)) with false by (symmetry; apply Nat.ltb_ge; lia).
   rewrite Hcrc. cbn [N.eqb negb andb]. reflexivity.
 Qed.
+
+(* ---- C11 / C04 for sections spanning packets: the table chain (dedup + buffer + CRC gate) ---- *)
+Lemma t_continue_partial (c : chain IS) cx r x :
+  sp_ignore_rest c = false -> dd_ignore_rest c = false -> bf_state c = Buffering r -> (length x < r)%nat ->
+  sp_continue_t c cx x = Ok (set_buf IS c (bf_buf c ++ x) (Buffering (r - length x)), cx, []).
+Proof.
+  intros Hi Hd Hs Hl. unfold sp_continue. rewrite Hi. cbn [table_cfg cf_compact]. unfold dd_continue. cbn [table_cfg cf_dedup].
+  rewrite Hd. unfold buf_continue. rewrite Hs.
+  replace (Nat.ltb r (length x)) with false by (symmetry; apply Nat.ltb_ge; lia).
+  unfold usub. replace (Nat.leb (length x) r) with true by (symmetry; apply Nat.leb_le; lia). cbn [bind].
+  replace (Nat.eqb (r - length x) 0) with false by (symmetry; apply Nat.eqb_neq; lia). reflexivity.
+Qed.
+
+(* the continuation that completes the section: the CRC gate decides *)
+Lemma t_continue_complete (c : chain IS) cx r x :
+  sp_ignore_rest c = false -> dd_ignore_rest c = false -> bf_state c = Buffering r -> (r <= length x)%nat ->
+  (8 <= length (bf_buf c))%nat ->
+  let b := bf_buf c ++ firstn r x in
+  ch_ssi (hdr_of b) = true ->
+  sp_continue_t c cx x =
+  (if Nat.ltb (length b) 12 then Ok (set_buf IS c b Complete, cx, [])
+   else if negb fz && negb (m_sum32 b =? 0) then Ok (set_buf IS c b Complete, cx, [])
+   else do r <- inner (in_state c) cx (hdr_of b) (skipn 3 b) b None;
+        Ok (set_inner IS (set_buf IS c b Complete) (fst (fst r)), snd (fst r), snd r)).
+Proof.
+  intros Hi Hd Hs Hl Hh b Hssi. unfold sp_continue. rewrite Hi. cbn [table_cfg cf_compact]. unfold dd_continue. cbn [table_cfg cf_dedup].
+  rewrite Hd. unfold buf_continue. rewrite Hs.
+  assert (Hb8 : (8 <= length b)%nat) by (unfold b; rewrite app_length; lia).
+  assert (Hnr : (if Nat.ltb r (length x) then Ok 0%nat else usub r (length x) 316) = Ok 0%nat).
+  { destruct (Nat.ltb_spec r (length x)); [reflexivity|]. unfold usub.
+    replace (Nat.leb (length x) r) with true by (symmetry; apply Nat.leb_le; lia). f_equal. lia. }
+  rewrite Hnr. cbn [bind Nat.eqb].
+  unfold slice_to at 1. replace (Nat.leb r (length x)) with true by (symmetry; apply Nat.leb_le; lia). cbn [bind].
+  fold b. unfold slice_to. unfold SCH_SIZE. replace (Nat.leb 3 (length b)) with true by (symmetry; apply Nat.leb_le; lia).
+  cbn [bind]. rewrite sch_new_firstn by lia. cbn [bind table_cfg cf_compact].
+  unfold slice_from. replace (Nat.leb 3 (length b)) with true by (symmetry; apply Nat.leb_le; lia). cbn [bind].
+  rewrite tsh_new_ok by assumption. cbn [bind].
+  unfold crc_layer_section. cbn [table_cfg cf_crc cf_fuzzing]. unfold assert. rewrite Hssi. cbn [bind].
+  unfold SCH_SIZE, TSH_SIZE. change (3 + 5 + 4)%nat with 12%nat. cbn [set_buf in_state]. reflexivity.
+Qed.
+
+Lemma t_continue_after_complete (c : chain IS) cx x : bf_state c = Complete -> sp_continue_t c cx x = Ok (c, cx, []).
+Proof.
+  intros Hs. unfold sp_continue. destruct (sp_ignore_rest c); [reflexivity|]. cbn [table_cfg cf_compact].
+  unfold dd_continue. cbn [table_cfg cf_dedup]. destruct (dd_ignore_rest c); [reflexivity|].
+  unfold buf_continue. rewrite Hs. reflexivity.
+Qed.
+
+Lemma run_continues_complete xs : forall (c : chain IS) cx, bf_state c = Complete -> run_continues c cx xs = Ok (c, cx, []).
+Proof.
+  induction xs as [|x xs IH]; intros c cx Hs; [reflexivity|].
+  cbn [run_continues]. rewrite t_continue_after_complete by assumption. cbn [bind]. rewrite IH by assumption. reflexivity.
+Qed.
+
+(* what a completed transmission of S does, as a function of the state c the buffer layer was in *)
+Definition applied (c : chain IS) (cx : CX) (S : list N) : res (chain IS * CX * list EV) :=
+  if Nat.ltb (length S) 12 then Ok (set_buf IS c S Complete, cx, [])
+  else if negb fz && negb (m_sum32 S =? 0) then Ok (set_buf IS c S Complete, cx, [])
+  else do r <- inner (in_state c) cx (hdr_of S) (skipn 3 S) S None;
+       Ok (set_inner IS (set_buf IS c S Complete) (fst (fst r)), snd (fst r), snd r).
+
+Lemma applied_frame (c : chain IS) b st cx S : applied (set_buf IS c b st) cx S = applied c cx S.
+Proof. reflexivity. Qed.
+
+Lemma applied_complete (c : chain IS) cx S r : applied c cx S = Ok r -> bf_state (fst (fst r)) = Complete.
+Proof.
+  unfold applied. destruct (Nat.ltb (length S) 12); [intros E; inversion E; reflexivity|].
+  destruct (negb fz && negb (m_sum32 S =? 0)); [intros E; inversion E; reflexivity|].
+  destruct (inner _ _ _ _ _ _) as [q|s]; cbn [bind]; intros E; inversion E; reflexivity.
+Qed.
+
+Lemma t_conts_deliver : forall (cs : list (list N)) (S : list N) (k : nat) (c : chain IS) cx (extra : list N),
+  sp_ignore_rest c = false -> dd_ignore_rest c = false -> bf_buf c = firstn k S -> bf_state c = Buffering (length S - k) ->
+  (8 <= k < length S)%nat -> ch_ssi (hdr_of S) = true ->
+  Forall (fun x => x <> []) cs ->
+  concat cs = skipn k S ++ extra ->
+  (forall pre last, cs = pre ++ [last] -> (length extra < length last)%nat) ->
+  cs <> [] ->
+  run_continues c cx cs = applied c cx S.
+Proof.
+  induction cs as [|x cs IH]; intros S k c cx extra Hi Hd Hb Hs Hk Hssi Hne Hcat Hlast Hnn; [congruence|].
+  cbn [run_continues]. cbn [concat] in Hcat.
+  assert (Hbl : length (bf_buf c) = k) by (rewrite Hb, firstn_length; lia).
+  destruct (Nat.leb_spec (length S - k) (length x)) as [Hle|Hgt].
+  - assert (Hx : firstn (length S - k) x = skipn k S).
+    { apply (f_equal (firstn (length S - k))) in Hcat.
+      rewrite firstn_app in Hcat. replace (length S - k - length x)%nat with 0%nat in Hcat by lia.
+      rewrite firstn_O, app_nil_r in Hcat. rewrite Hcat.
+      rewrite firstn_app, skipn_length. replace (length S - k - (length S - k))%nat with 0%nat by lia.
+      rewrite firstn_O, app_nil_r. apply firstn_all2. rewrite skipn_length. lia. }
+    assert (Eb : bf_buf c ++ firstn (length S - k) x = S) by (rewrite Hb, Hx; apply firstn_skipn).
+    rewrite (t_continue_complete c cx (length S - k) x Hi Hd Hs Hle) by (rewrite ?Eb; (lia || assumption)).
+    rewrite Eb. fold (applied c cx S).
+    destruct (applied c cx S) as [[[c1 cx1] e1]|site] eqn:Ea; cbn [bind]; [|reflexivity].
+    rewrite run_continues_complete by (apply (applied_complete c cx S _ Ea)). cbn [bind]. rewrite app_nil_r. reflexivity.
+  - destruct cs as [|y cs'].
+    + exfalso. cbn in Hcat. rewrite app_nil_r in Hcat.
+      specialize (Hlast [] x eq_refl).
+      apply (f_equal (@length N)) in Hcat. rewrite app_length, skipn_length in Hcat. lia.
+    + pose proof (Forall_inv_tail Hne) as Hne'.
+      destruct (app_eq_prefix x (concat (y :: cs')) (skipn k S) extra Hcat) as [Hxs Hrest'].
+      { rewrite skipn_length. lia. }
+      rewrite (t_continue_partial c cx (length S - k) x Hi Hd Hs Hgt). cbn [bind].
+      rewrite (IH S (k + length x)%nat (set_buf IS c (bf_buf c ++ x) (Buffering (length S - k - length x))) cx extra).
+      * rewrite applied_frame. destruct (applied c cx S) as [[[c1 cx1] e1]|site]; reflexivity.
+      * exact Hi.
+      * exact Hd.
+      * cbn [bf_buf set_buf]. rewrite Hb. rewrite Hxs at 1. apply firstn_add_skipn.
+      * cbn [bf_state set_buf]. f_equal. lia.
+      * lia.
+      * exact Hssi.
+      * assumption.
+      * rewrite Hrest'. rewrite skipn_skipn. reflexivity.
+      * intros pre last E. apply (Hlast (x :: pre) last). rewrite E. reflexivity.
+      * discriminate.
+Qed.
+
+(* C11, sections spanning packets: from EVERY state of the chain — whatever a damaged transmission left behind —
+   a transmission of S whose version differs from the remembered one: the start packet delivers nothing and the
+   continuation packets (any tiling; stuffing or the next section may follow in the last one) deliver exactly
+   [applied]: S reaches the table processor exactly once iff its CRC verifies (or cfg(fuzzing)), with exactly
+   the bytes of S, and nothing else is delivered *)
+Lemma c11_multi_applied (c : chain IS) cx S data off v cs extra :
+  accepted_start (hdr_of S) data -> (length S = ch_section_length (hdr_of S) + 3)%nat ->
+  (length data < length S)%nat -> data = firstn (length data) S ->
+  tsh_version (skipn 3 data) = Ok v -> dd_last_version c <> Some v ->
+  Forall (fun x => x <> []) cs -> concat cs = skipn (length data) S ++ extra ->
+  (forall pre last, cs = pre ++ [last] -> (length extra < length last)%nat) -> cs <> [] ->
+  let c1 := set_buf IS (set_dedup IS (set_sp_ignore IS c false) (Some v) false) data (Buffering (length S - length data)) in
+  sp_start_t c cx (hdr_of S) data off = Ok (c1, cx, []) /\
+  run_continues c1 cx cs = applied c1 cx S.
+Proof.
+  intros Ha Hlen Hd Hpre Hv Hne Hcs Hcat Hlast Hnn c1. split.
+  - rewrite (c11_start_passes c cx _ data off v Ha Hv Hne). unfold buf_start, SCH_SIZE. rewrite <- Hlen.
+    replace (Nat.leb (length S) (length data)) with false by (symmetry; apply Nat.leb_gt; lia).
+    unfold usub. replace (Nat.leb (length data) (length S)) with true by (symmetry; apply Nat.leb_le; lia). reflexivity.
+  - destruct Ha as (Hs & H8 & _).
+    apply (t_conts_deliver cs S (length data) c1 cx extra); try assumption; try reflexivity. lia.
+Qed.
+
+Lemma applied_crc_ok (c : chain IS) cx S : fz = false -> (12 <= length S)%nat -> m_sum32 S = 0 ->
+  applied c cx S = (do r <- inner (in_state c) cx (hdr_of S) (skipn 3 S) S None;
+                    Ok (set_inner IS (set_buf IS c S Complete) (fst (fst r)), snd (fst r), snd r)).
+Proof.
+  intros Hf Hl Hc. unfold applied. replace (Nat.ltb (length S) 12) with false by (symmetry; apply Nat.ltb_ge; lia).
+  rewrite Hc, Hf. reflexivity.
+Qed.
+
+Lemma applied_crc_bad (c : chain IS) cx S : fz = false -> m_sum32 S <> 0 ->
+  applied c cx S = Ok (set_buf IS c S Complete, cx, []).
+Proof.
+  intros Hf Hc. unfold applied. destruct (Nat.ltb (length S) 12); [reflexivity|].
+  replace (m_sum32 S =? 0) with false by (symmetry; apply N.eqb_neq; exact Hc). rewrite Hf. reflexivity.
+Qed.
+
+(* F9: a section start with fewer than 3 of its bytes left in the packet (its header straddles the packet boundary; the
+   pointer_field is valid): after the tail of the previous section has been handled the whole chain is reset — the
+   remembered version is forgotten *)
+Lemma short_start_resets (c : chain IS) cx pk poff p T next :
+  pkt_payload pk = Ok (Some (poff, p :: T ++ next)) -> pkt_payload_unit_start_indicator pk = Ok true ->
+  length T = N.to_nat p -> (0 < length next < 3)%nat ->
+  spc_consume_t c cx pk =
+  (do r1 <- (if Nat.ltb 0 (N.to_nat p) then sp_continue_t c cx T else Ok (c, cx, []));
+   Ok (sp_reset cfg IS (fst (fst r1)), snd (fst r1), snd r1)).
+Proof.
+  intros Hpl Hpusi HT Hn. unfold spc_consume. rewrite Hpl. cbn [bind]. rewrite Hpusi. cbn [bind idx nth_error].
+  unfold slice_from at 1. cbn [length Nat.leb bind skipn].
+  assert (Hlen : length (T ++ next) = (N.to_nat p + length next)%nat) by (rewrite app_length; lia).
+  destruct (Nat.ltb_spec 0 (N.to_nat p)) as [Hp|Hp].
+  - replace (Nat.leb (length (T ++ next)) (N.to_nat p)) with false by (symmetry; apply Nat.leb_gt; lia).
+    unfold slice_to. replace (Nat.leb (N.to_nat p) (length (T ++ next))) with true by (symmetry; apply Nat.leb_le; lia).
+    cbn [bind]. rewrite <- HT, firstn_app_exact.
+    destruct (sp_continue_t c cx T) as [[[c1 u] e1]|]; cbn [bind fst snd]; [|reflexivity].
+    unfold slice_from. rewrite HT. replace (Nat.leb (N.to_nat p) (length (T ++ next))) with true by (symmetry; apply Nat.leb_le; lia).
+    cbn [bind]. rewrite <- HT, skipn_app_exact.
+    replace (Nat.ltb (length next) SCH_SIZE) with true by (symmetry; apply Nat.ltb_lt; unfold SCH_SIZE; lia). reflexivity.
+  - assert (Hp0 : N.to_nat p = 0%nat) by lia. cbn [bind].
+    assert (HT0 : T = []) by (destruct T; [reflexivity|cbn in HT; lia]). subst T. cbn [app] in *.
+    unfold slice_from. rewrite Hp0. cbn [Nat.leb bind skipn].
+    replace (Nat.ltb (length next) SCH_SIZE) with true by (symmetry; apply Nat.ltb_lt; unfold SCH_SIZE; lia). reflexivity.
+Qed.
+
+Lemma reset_forgets (c : chain IS) : dd_last_version (sp_reset cfg IS c) = None /\ bf_state (sp_reset cfg IS c) = Complete /\
+  in_state (sp_reset cfg IS c) = in_state c.
+Proof. repeat split. Qed.
 End TableChain.
 
 (* ---- C05: what applying a table does ---- *)
